@@ -1130,7 +1130,7 @@ def run(ctx):
     n_with, n_without = r3(ctx)
     rep.floor('C09.R1', 14, '12 non-epsilon mkstate() sites in 7 parser actions + dupmachine + the transchar[] writer census')
     rep.floor('C09.R2', 9, 'cclinit/cclnegate (cclng), ccladd/ccl2ecl (ccltbl), qsort/mkeccl escapes, nlch, two flag arrays')
-    rep.floor('C09.R3', 320, 'per yylineno variant: guarded sites + yylex/yyunput/yyinput shapes (+4 regions in own probes); one per variant without')
+    rep.floor('C09.R3', 340, 'per yylineno variant: guarded sites + yylex/yyunput/yyinput shapes (+4 regions in own probes); one per variant without')
     rep.floor('C09.R4', 2, 'M4_HOOK_CHAR_FORWARD and M4_HOOK_CHAR_REWIND in finish_rule')
     rep.floor('C09.R5', 7, 'two table bodies, agreement, length, two call sites under do_yylineno, fwrite')
     rep.undecided += ['the numeric value of yylineno for any input or history',
